@@ -271,16 +271,27 @@ def okObs (prev : Obs) : Op p → Bool
 /-! ### hosts / frontend maps guard (`config.WriteFrontendMaps`)
 
 `Hosts` has the same items/itemsAdd/itemsDel/Shrink/Commit shape with a single "file" (the set of
-frontend maps) that is rewritten iff `frontend.Maps == nil || hosts.Changed()`.  `config.Clear`
-replaces hosts and frontend by fresh objects (itemsDel is NOT carried over; `Maps == nil` forces
-the rewrite).  Host content is abstract; `Hosts.Shrink` uses `reflect.DeepEqual`. -/
+frontend maps) that is rewritten iff the guard in front of `WriteFrontendMaps` does not skip it.
+`config.Clear` replaces hosts and frontend by fresh objects (itemsDel is NOT carried over;
+`Maps == nil` forces the rewrite).  Host content is abstract (`Nat`, odd = the host has a root
+redirect); `Hosts.Shrink` uses `reflect.DeepEqual`.
+
+One frontend map is NOT a function of the hosts alone: `RedirRootSSLMap` lists a host with a root
+redirect iff the BACKEND path of its root has `SSLRedirect` (`c.backends.Items()[..]`).  `bc x` is
+the content of the backend serving host `x` (odd = ssl-redirect), `bcC x` its content at the last
+commit: after `Backends.Shrink` that backend is in ItemsAdd/ItemsDel iff `bc x ≠ bcC x`. -/
+
+def hasRoot (c : Nat) : Bool := c % 2 == 1
+def sslOf (b : Nat) : Bool := b % 2 == 1
 
 structure HStore (p : Nat) where
   items : Fin p → Option Nat := fun _ => none
   add : Fin p → Option Nat := fun _ => none
   del : Fin p → Option Nat := fun _ => none
+  bc : Fin p → Nat := fun _ => 0
+  bcC : Fin p → Nat := fun _ => 0
   mapsNil : Bool := true
-  maps : Fin p → Option Nat := fun _ => none     -- host entries in the map files
+  maps : Fin p → Option (Nat × Bool) := fun _ => none     -- host entry + root-ssl entry in the map files
 
 def hset (m : Fin p → Option Nat) (x : Fin p) (v : Option Nat) : Fin p → Option Nat := fun y => if y = x then v else m y
 
@@ -296,8 +307,12 @@ def HStore.removeOne (s : HStore p) (x : Fin p) : HStore p :=
 
 def HStore.removeAll (s : HStore p) (xs : List (Fin p)) : HStore p := xs.foldl HStore.removeOne s
 
+/-- the backend of host `x` is removed and re-added with content `b` -/
+def HStore.backend (s : HStore p) (x : Fin p) (b : Nat) : HStore p :=
+  { s with bc := fun y => if y = x then b else s.bc y }
+
 /-- `config.Clear`: fresh `Hosts`, fresh `Frontend` (`Maps = nil`); the files stay on disk -/
-def HStore.clear (s : HStore p) : HStore p := { maps := s.maps }
+def HStore.clear (s : HStore p) : HStore p := { maps := s.maps, bc := s.bc, bcC := s.bcC }
 
 def HStore.hmatched (s : HStore p) (x : Fin p) : Bool :=
   match s.del x, s.add x with
@@ -313,23 +328,39 @@ def HStore.shrink (s : HStore p) : HStore p :=
 /-- `Hosts.Changed()` -/
 def HStore.isChanged (s : HStore p) : Bool := anyFin fun x => (s.add x).isSome || (s.del x).isSome
 
-/-- `WriteFrontendMaps` then `Commit` -/
-def HStore.update (s : HStore p) : HStore p :=
+/-- `config.rootRedirectBackendChanged()`: a changed backend serves a host with a root redirect -/
+def HStore.rootBackendChanged (s : HStore p) : Bool :=
+  anyFin fun x => (s.bc x != s.bcC x) && (match s.items x with | some c => hasRoot c | none => false)
+
+/-- what the map files must hold for host `x` -/
+def HStore.want (s : HStore p) (x : Fin p) : Option (Nat × Bool) :=
+  (s.items x).map fun c => (c, hasRoot c && sslOf (s.bc x))
+
+/-- `WriteFrontendMaps` then `Commit`.  `withBackends = false` is the guard before the repair:
+`Maps != nil && !hosts.Changed()` alone -/
+def HStore.updateWith (withBackends : Bool) (s : HStore p) : HStore p :=
   let s := s.shrink
-  let s := if !s.mapsNil && !s.isChanged then s else { s with maps := s.items, mapsNil := false }
-  { s with add := fun _ => none, del := fun _ => none }
+  let skip := !s.mapsNil && !s.isChanged && !(withBackends && s.rootBackendChanged)
+  let s := if skip then s else { s with maps := s.want, mapsNil := false }
+  { s with add := fun _ => none, del := fun _ => none, bcC := s.bc }
+
+def HStore.update (s : HStore p) : HStore p := s.updateWith true
 
 inductive HOp (p : Nat) where
   | acquire (x : Fin p) (c : Nat)
   | removeAll (xs : List (Fin p))
+  | backend (x : Fin p) (b : Nat)
   | clear
   | update
 
-def hstep (s : HStore p) : HOp p → HStore p
+def hstepWith (withBackends : Bool) (s : HStore p) : HOp p → HStore p
   | .acquire x c => s.acquire x c
   | .removeAll xs => s.removeAll xs
+  | .backend x b => s.backend x b
   | .clear => s.clear
-  | .update => s.update
+  | .update => s.updateWith withBackends
+
+def hstep (s : HStore p) (op : HOp p) : HStore p := hstepWith true s op
 
 def hokOp (s : HStore p) : HOp p → Bool
   | .removeAll xs => xs.all fun x => (s.add x).isNone
